@@ -377,9 +377,7 @@ Definition remove_attribute_node (a : adom) (r x : nid) : adom * aoutcome :=
     match n_type rn, n_type xn with
     | TElement, TAttr =>
       if (fst x =? fst r) && memN (snd x) (n_attrs rn)
-      then if lookup_clear d (snd r) (local_part (n_name xn)) || lookup_clear d (snd r) (n_name xn)
-           then (set_doc a (fst r) (drop_attrs d (snd r) [snd x]), ADone (ANode x))
-           else (set_doc a (fst r) (drop_attrs d (snd r) (attrs_local d (snd r) (local_part (n_name xn)))), AUnspecified)
+      then (set_doc a (fst r) (drop_attrs d (snd r) [snd x]), ADone (ANode x))
       else raise a NotFoundErr
     | _, _ => (a, ANotOffered)
     end
